@@ -22,7 +22,7 @@ import tlaval
 import tlc
 import tracecheck
 from exact import LinForm, lin_vec, vec_to_lin
-from drive_c07 import poly_of, rat_of, exact, pairs, show, Bad
+from drive_c07 import poly_of, rat_of, exact, pairs, show, Bad, encodable
 
 F = Fraction
 LIMIT = 1 << 28
@@ -576,6 +576,11 @@ def m3(ctx, al, ntrees, nsys, length):
             recs.append({"op": "tree", "t": jtree(t), "n": [], "d": [], "raised": True})
             meta.append(dict(info, raised="%s: %s" % (type(ex).__name__, str(ex)[:120])))
             continue
+        if not encodable([pairs(n), pairs(d)]):
+            ctx.count(1)
+            ctx.violation("C05:tree:magnitude", dict(info, why="observed coefficient outside the range of every specified "
+                                                               "value for this tree", observed=[show(n), show(d)]))
+            continue
         recs.append({"op": "tree", "t": jtree(t), "n": pairs(n), "d": pairs(d), "raised": False})
         meta.append(info)
         ctx.count(1, nontrivial_key=("m3", len(recs)))
@@ -641,6 +646,10 @@ def m3(ctx, al, ntrees, nsys, length):
             ctx.violation("C05:sys-raises", dict(info, raised="%s: %s" % (type(ex).__name__, str(ex)[:160])))
             continue
         info["shared_denominator"] = tf["d"] == tg["d"] and len(tf["d"]) >= 2
+        if not encodable(rec):
+            ctx.count(1)
+            ctx.violation("C05:sys:magnitude", dict(info, why="observed value outside the range of every specified value"))
+            continue
         recs.append(rec)
         meta.append(info)
         made += 1
